@@ -10,6 +10,7 @@ import (
 	"os"
 	"path/filepath"
 	"sort"
+	"strings"
 	"sync"
 	"testing"
 
@@ -77,10 +78,26 @@ func loadKnown() {
 	})
 }
 
+// knownEntry finds the open known finding a violation matches. A listed key of the form "*:<situation>" matches every
+// violation key of that property ending in ":<situation>": the situation names the specific call site and history
+// (e.g. the create-apply landing on an object somebody created meanwhile), the part before it is merely which of its
+// consequences the monitor noticed first.
+func knownEntry(v *Violation) (KnownFinding, bool) {
+	loadKnown()
+	if f, ok := knownOpen[v.Prop+"|"+v.Key]; ok {
+		return f, true
+	}
+	if i := strings.Index(v.Key, ":"); i >= 0 {
+		if f, ok := knownOpen[v.Prop+"|*"+v.Key[i:]]; ok {
+			return f, true
+		}
+	}
+	return KnownFinding{}, false
+}
+
 // IsKnown reports whether a violation matches an open known finding.
 func IsKnown(v *Violation) bool {
-	loadKnown()
-	_, ok := knownOpen[v.Prop+"|"+v.Key]
+	_, ok := knownEntry(v)
 	return ok
 }
 
@@ -161,8 +178,9 @@ func (s *Stats) Count(name string, n int64) {
 func (s *Stats) Known(v *Violation) {
 	loadKnown()
 	s.mu.Lock()
-	s.ExcludedKnown[v.Key]++
-	s.KnownWhat[v.Key] = knownOpen[v.Prop+"|"+v.Key].What
+	f, _ := knownEntry(v)
+	s.ExcludedKnown[f.Key]++
+	s.KnownWhat[f.Key] = f.What
 	s.mu.Unlock()
 }
 
